@@ -70,6 +70,49 @@ pub fn c03(tier: Tier) -> Vec<Case> {
             }
         }
     }
+    // (2b) @string rules whose (ignored) body carries every field bundle, overrides included
+    for (bn, bu) in bundles() {
+        for extra in [vec![Directive::String], vec![Directive::String, Directive::Position], vec![Directive::String, Directive::NoSkipWs, Directive::Memoize]] {
+            let mut l = vec![Rule::normal("K", extra.clone(), seq(vec![lit("k"), bu.clone()]))];
+            l.extend(leaves.iter().cloned());
+            let g = root_grammar(vec![Directive::Export], seq(vec![field("k", "K"), opt(field("k2", "K"))]), &l);
+            add(&mut b, &format!("kinds/string-with-fields/{bn}"), g);
+        }
+    }
+    for body in [choice(vec![over("X"), over("Y")]), seq(vec![lit("k"), over("X")]), star(choice(vec![over("X"), seq(vec![lit("y"), over("Y")])]))] {
+        let mut l = vec![Rule::normal("K", vec![Directive::String], body)];
+        l.extend(leaves.iter().cloned());
+        let g = root_grammar(vec![Directive::Export], field("k", "K"), &l);
+        add(&mut b, "kinds/string-with-override", g);
+    }
+    // (2c) the guard for memoization: @memoize / @leftrec on every rule kind under derive sets WITHOUT Clone.
+    // The compiler may reject these (documented for @memoize); whatever it accepts must compile.
+    for (kn, krules) in &kinds {
+        for dir in [Directive::Memoize, Directive::Leftrec] {
+            for d in [Some(vec![]), Some(vec!["Debug".to_string()])] {
+                let mut l = krules.clone();
+                let mut applicable = false;
+                for r in &mut l {
+                    if r.name == "K" && matches!(r.def, RuleDef::Normal(_)) {
+                        r.directives.push(dir.clone());
+                        applicable = true;
+                    }
+                }
+                if !applicable {
+                    continue;
+                }
+                l.extend(leaves.iter().cloned());
+                let g = root_grammar(vec![Directive::Export], seq(vec![field("k", "K"), opt(field("f", "X"))]), &l);
+                if !wf::well_formed(&g) {
+                    continue;
+                }
+                if b.add(&format!("guard/memo-without-clone/{kn}"), g, none.clone()) {
+                    b.last().derives = d.clone();
+                    b.last().note = "may-be-rejected".into();
+                }
+            }
+        }
+    }
     // (3) recursive shapes: the cycle is broken by `*` or by a Vec
     let rec_bodies = vec![
         seq(vec![lit("a"), opt(bfield("r", "R"))]),
